@@ -1,4 +1,4 @@
-CONSTANTS Mags = {1, 2} Pages <- PagesA Rows = {1, 2, 24} Cids = {1, 2} Flofs = {1} FaultKinds = {} MaxFaults = 0 MaxPk = 14
+CONSTANTS Mags = {1, 2} Pages <- PagesA Rows = {1, 2, 24} Cids = {1, 2} Flofs = {1, 2} FaultKinds = {} MaxFaults = 0 MaxPk = 14
 SPECIFICATION GSpec
 INVARIANT Dump
 CHECK_DEADLOCK FALSE
